@@ -23,7 +23,7 @@
 (* (after the fix: the gate compares the normalised path component-wise    *)
 (* and also covers the directory that /directory lists for an f payload).  *)
 (* Deviations: D_PREFIX_ON_UNNORMALISED, D_DIRECTORY_LISTS_PARENT_OF_F,    *)
-(* D_GET_NO_DOTDOT_CHECK.                                                  *)
+(* D_GET_NO_DOTDOT_CHECK, D_GET_KEEPS_ABSOLUTE, D_GATE_IGNORES_ROOT_CHANGE.  *)
 (***************************************************************************)
 EXTENDS Naturals, Sequences, FiniteSets, TLC, Json
 
@@ -76,6 +76,9 @@ AbsOf(start, p) == CASE start = "root_abs" -> <<"A", "base", "sqlroot">> \o p
                      [] start = "base_rel" -> IF p # <<>> /\ p[1] = "" THEN <<"/">> \o p ELSE <<"A", "base">> \o p
                      [] start = "root_rel" -> IF p # <<>> /\ p[1] = "" THEN <<"/">> \o p ELSE <<"A", "base", "sqlroot">> \o p
 RootAbs == <<"A", "base", "sqlroot">>
+\* the configured root can be re-pointed between requests: the sql directory or the "outside" directory
+Roots == {"ROOT", "OUT"}
+RootAbsOf(R) == IF R = "ROOT" THEN RootAbs ELSE <<"A", "base", "outside">>
 StartNode(start, p) == IF start \in {"base_rel", "root_rel"} /\ p # <<>> /\ p[1] = "" THEN "ABOVE"   \* a relative spelling starting with "/" is absolute
                        ELSE IF start \in {"root_abs", "root_rel"} THEN "ROOT" ELSE "BASE"
 \* a relative spelling must be a non-empty string
@@ -90,17 +93,18 @@ StaticAbs == <<"A", "base", "static">>
 
 \* ---- machine: gate + handlers
 Out(status, disclosed) == [status |-> status, disclosed |-> disclosed]
-Gate(absp) == IF "D_PREFIX_ON_UNNORMALISED" \in Known
+Gate(R, absp) == IF "D_PREFIX_ON_UNNORMALISED" \in Known
               THEN LET q == DropDots(absp) IN      \* str(Path(p).absolute()).startswith(str(root)): raw string prefix
-                   Len(q) >= 3 /\ q[1] = "A" /\ q[2] = "base" /\ q[3] \in {"sqlroot", "sqlroot_sib"}
-              ELSE IsPrefix(RootAbs, NormLex(<<>>, absp))
+                   Len(q) >= 3 /\ q[1] = "A" /\ q[2] = "base" /\ q[3] \in (IF R = "ROOT" THEN {"sqlroot", "sqlroot_sib"} ELSE {"outside"})
+              ELSE IF "D_GATE_IGNORES_ROOT_CHANGE" \in Known THEN IsPrefix(RootAbs, NormLex(<<>>, absp))     \* verdict of the first root
+              ELSE IsPrefix(RootAbsOf(R), NormLex(<<>>, absp))
 \* Path(f).parent: drop the last component; the parent of a bare prefix is its real parent, the parent of "." is "."
 ParentComps(start, p) == LET q == DropDots(p) IN
    IF q # <<>> THEN SubSeq(q, 1, Len(q) - 1) ELSE IF start \in {"root_abs", "base_abs"} THEN <<"..">> ELSE <<>>
-Post(route, start, p) ==
+Post(R, route, start, p) ==
    LET absp == AbsOf(start, p)
        sn == StartNode(start, p) IN
-   IF ~Gate(absp) THEN Out("refused", {})
+   IF ~Gate(R, absp) THEN Out("refused", {})
    ELSE CASE route \in {"script_f", "lineage_f"} ->
                LET n == WalkRaw(sn, p, 1) IN IF n \in Files THEN Out("ok", {n}) ELSE Out("refused", {})
           [] route = "directory_d" ->
@@ -109,10 +113,16 @@ Post(route, start, p) ==
                LET pc == ParentComps(start, p)
                    pabs == NormLex(<<>>, AbsOf(start, pc))
                    n == WalkRaw(sn, pc, 1) IN
-               IF "D_DIRECTORY_LISTS_PARENT_OF_F" \notin Known /\ ~IsPrefix(RootAbs, pabs) THEN Out("refused", {})
+               IF "D_DIRECTORY_LISTS_PARENT_OF_F" \notin Known /\ ~IsPrefix(RootAbsOf(R), pabs) THEN Out("refused", {})
                ELSE IF n \in Dirs THEN Out("ok", {n}) ELSE Out("refused", {})
-Get(p) == IF "D_GET_NO_DOTDOT_CHECK" \notin Known /\ \E i \in DOMAIN p : p[i] = ".." THEN Out("refused", {})
+\* GET spellings: "static" = segments under the static folder; "abs" = PATH_INFO carries an absolute file system path
+\* behind a doubled slash ("//<abs base>/segments"): stripped of its slashes it is just a (missing) relative name
+GetPath(gs, p) == IF gs = "abs" THEN <<"ABSBASE">> \o p ELSE p
+Get(gs, p0) == LET p == GetPath(gs, p0) IN
+          IF "D_GET_NO_DOTDOT_CHECK" \notin Known /\ \E i \in DOMAIN p : p[i] = ".." THEN Out("refused", {})
           ELSE IF p = <<>> \/ p = <<"">> THEN Out("ok", {"INDEX"})
+          ELSE IF "D_GET_KEEPS_ABSOLUTE" \in Known /\ gs = "abs"
+          THEN LET n == WalkRaw("BASE", DropDots(p0), 1) IN IF n \in Files THEN Out("ok", {n}) ELSE Out("refused", {})
           ELSE LET n == WalkRaw("STATIC", DropDots(p), 1) IN IF n \in Files THEN Out("ok", {n}) ELSE Out("refused", {})
 
 VARIABLES segs
@@ -123,13 +133,14 @@ Next == \E s \in Segs : Walk(s)
 Spec == Init /\ [][Next]_vars
 
 \* ---- O1: the mechanism as specified keeps the property for every request on this path
-PostContained == \A r \in PostRoutes, st \in Starts : ValidReq(st, segs) =>
-                    LET o == Post(r, st, segs) IN Containment("ROOT", o) /\ RefusedOutside(LiesInside(RootAbs, AbsOf(st, segs)), o)
-GetContained == LET o == Get(segs) IN Containment("STATIC", o) /\ RefusedOutside(LiesInside(StaticAbs, StaticAbs \o segs), o)
+PostContained == \A R \in Roots, r \in PostRoutes, st \in Starts : ValidReq(st, segs) =>
+                    LET o == Post(R, r, st, segs) IN Containment(R, o) /\ RefusedOutside(LiesInside(RootAbsOf(R), AbsOf(st, segs)), o)
+GetContained == \A gs \in {"static", "abs"} :
+                    LET o == Get(gs, segs) IN Containment("STATIC", o) /\ RefusedOutside(LiesInside(StaticAbs, StaticAbs \o GetPath(gs, segs)), o)
 
 \* ---- generation: one CASE per path with the machine's answer for every request on it
-Cases == {[route |-> r, start |-> st, status |-> Post(r, st, segs).status, disclosed |-> Post(r, st, segs).disclosed]
-             : r \in PostRoutes, st \in {s \in Starts : ValidReq(s, segs)}}
-         \cup {[route |-> "get", start |-> "static", status |-> Get(segs).status, disclosed |-> Get(segs).disclosed]}
+Cases == {[root |-> R, route |-> r, start |-> st, status |-> Post(R, r, st, segs).status, disclosed |-> Post(R, r, st, segs).disclosed]
+             : R \in Roots, r \in PostRoutes, st \in {s \in Starts : ValidReq(s, segs)}}
+         \cup {[root |-> "STATIC", route |-> "get", start |-> gs, status |-> Get(gs, segs).status, disclosed |-> Get(gs, segs).disclosed] : gs \in {"static", "abs"}}
 EmitCase == Emit => PrintT(<<"CASE", ToJson([segs |-> segs, reqs |-> Cases])>>)
 =============================================================================
